@@ -100,14 +100,18 @@ pub struct StreamCase {
     /// first: 0 none, 1 write + abort, 2 write + flush + abort, 3 body dropped, then write + flush,
     /// 4 writer dropped with unflushed data and the body never polled, 5 write + flush, half drained
     pub prelude: u8,
+    /// extra builder calls before the final configuration is set (the last call of each setter
+    /// counts): 0 none, 1 level 0 and chunk size 1 first, 2 level 9 and 64 KiB first, 3 the final
+    /// settings applied twice. 1 and 2 only when the case sets a level itself.
+    pub builder_detour: u8,
 }
 
 impl StreamCase {
     pub fn raw(chunk: usize, ops: Vec<Op>) -> StreamCase {
-        StreamCase { method: "GET".into(), accept_encoding: None, chunk, gzip_level: None, via_parts: false, payload: Payload::Hash, ops, extra_polls: 2, fresh_wakers: false, prelude: 0 }
+        StreamCase { method: "GET".into(), accept_encoding: None, chunk, gzip_level: None, via_parts: false, payload: Payload::Hash, ops, extra_polls: 2, fresh_wakers: false, prelude: 0, builder_detour: 0 }
     }
     pub fn gzip(chunk: usize, level: u32, ops: Vec<Op>) -> StreamCase {
-        StreamCase { method: "GET".into(), accept_encoding: Some(b"gzip".to_vec()), chunk, gzip_level: Some(level), via_parts: false, payload: Payload::Hash, ops, extra_polls: 2, fresh_wakers: false, prelude: 0 }
+        StreamCase { method: "GET".into(), accept_encoding: Some(b"gzip".to_vec()), chunk, gzip_level: Some(level), via_parts: false, payload: Payload::Hash, ops, extra_polls: 2, fresh_wakers: false, prelude: 0, builder_detour: 0 }
     }
     pub fn to_json(&self) -> Value {
         json!({
@@ -121,6 +125,7 @@ impl StreamCase {
             "extra_polls": self.extra_polls,
             "fresh_wakers": self.fresh_wakers,
             "prelude": self.prelude,
+            "builder_detour": self.builder_detour,
         })
     }
     pub fn from_json(v: &Value) -> StreamCase {
@@ -142,6 +147,7 @@ impl StreamCase {
             extra_polls: v["extra_polls"].as_u64().unwrap_or(2) as usize,
             fresh_wakers: v["fresh_wakers"].as_bool().unwrap_or(false),
             prelude: v["prelude"].as_u64().unwrap_or(0) as u8,
+            builder_detour: v["builder_detour"].as_u64().unwrap_or(0) as u8,
         }
     }
 }
@@ -266,6 +272,17 @@ pub fn build(case: &StreamCase) -> Option<(http::Response<SBody>, Option<SWriter
     } else {
         http_serve::streaming_body(&req)
     };
+    match (case.builder_detour, case.gzip_level) {
+        (1, Some(_)) => b = b.with_gzip_level(0).with_chunk_size(1),
+        (2, Some(_)) => b = b.with_chunk_size(65_536).with_gzip_level(9),
+        (3, l) => {
+            b = b.with_chunk_size(case.chunk);
+            if let Some(l) = l {
+                b = b.with_gzip_level(l);
+            }
+        }
+        _ => {}
+    }
     b = b.with_chunk_size(case.chunk);
     if let Some(l) = case.gzip_level {
         b = b.with_gzip_level(l);
